@@ -5,7 +5,7 @@ tag=$1; n=$2; ids=""
 for v in A B; do
   [ -f /tmp/seed/$n/$v/patch.diff ] || continue
   p=$(python3 -c "import json;print(json.load(open('/tmp/seed/$n/$v/meta.json'))['property'])")
-  id=$p-$tag${n#R7}$v; d=/verif/seeded/$id; mkdir -p $d
+  id=$p-$tag${n:2}$v; d=/verif/seeded/$id; mkdir -p $d
   cp /tmp/seed/$n/$v/patch.diff /tmp/seed/$n/$v/meta.json $d/
   cp /tmp/seed/$n/$v/zz_seed_demo_test.go $d/demo_test.go.txt 2>/dev/null
   /verif/tools/seedconfirm.sh $d 2>&1 | grep -v WARNING
